@@ -38,6 +38,10 @@ def run_e1(sc, scratch=None, value_check=True):
     def v(oracle, kind, msg, **kw):
         viol.append(dict({"oracle": oracle, "kind": kind, "msg": msg}, **kw))
 
+    if any(c["kind"] == "static" and c["inputs"] for c in sc["components"]):
+        probe("derived_static_component")
+    if any(c["kind"] == "sim" and any(o.get("static") for o in c["outputs"]) for c in sc["components"]):
+        probe("static_output_of_time_component")
     world.build()
     rec = world.rec
     comps = world.comps
@@ -130,9 +134,21 @@ def run_e1(sc, scratch=None, value_check=True):
         pred = {}
         for ii, inp in enumerate(sc["components"][ci]["inputs"]):
             _collect_pred(ci, ii, t, pred)
+        for key in [k for k in pred if k[1].split(".")[0] in pending.get("unpred", ())]:
+            del pred[key]
         pending["pred"] = pred
         pending["ev_start"] = len(rec.events)
         return snap
+
+    def _mark_unpredictable(sci, depth=0):
+        """a pull-based component asked through a link whose request time is not determined by the link definition
+        (buffering adapter, delay-to-push): the requests it forwards to its own inputs are not predictable either"""
+        if sc["components"][sci]["kind"] not in ("pull", "wsum") or depth > 6:
+            return
+        pending.setdefault("unpred", set()).add(sc["components"][sci]["name"])
+        for l2 in sc["links"]:
+            if l2.get("dst") and l2["dst"][0] == sci:
+                _mark_unpredictable(l2["src"][0], depth + 1)
 
     def _collect_pred(ci, ii, t, pred, depth=0):
         """(source output label, registering input label) -> acceptable request ticks"""
@@ -144,13 +160,17 @@ def run_e1(sc, scratch=None, value_check=True):
         ln = sc["links"][li]
         fl = chain_flags(ln["chain"])
         if fl["buf"] or fl["delay_push"]:
+            _mark_unpredictable(ln["src"][0])
             return
         try:
             tr = model.lm[li].required_source_time(t)
         except Unknown:
+            _mark_unpredictable(ln["src"][0])
             return
         sci, soi = ln["src"]
         src = sc["components"][sci]
+        if src["outputs"][soi].get("static"):
+            return          # a static output is asked for no particular time
         dst_lab = f"{sc['components'][ci]['name']}.{sc['components'][ci]['inputs'][ii]['name']}"
         src_lab = f"{src['name']}.{src['outputs'][soi]['name']}"
         pred.setdefault((src_lab, dst_lab), set()).add(tr)
